@@ -1,0 +1,5 @@
+//go:build !verif
+
+package airgapped
+
+func simYield(am *Machine, point string) {}
